@@ -21,6 +21,7 @@ code -> spec
            invariance, linearity, polynomial reproduction - with harness-measured discrepancies, judged by TLC.
 Python only concretises (spec value -> arrays), abstracts (arrays -> integers / support counts) and measures.
 """
+import copy
 import math
 import random
 import re
@@ -173,18 +174,46 @@ def scale_pair(n):
     return WSCALES[n % len(WSCALES)], YSCALES[(n // len(WSCALES)) % len(YSCALES)]
 
 
-def run_fit_case(c, exp, notes, a=0, b=0):
+INT_DTYPES = ['int64', 'int32', 'int16', 'uint8']
+# per-dtype allowance for the exact replays (none: the dtype of the abscissae is a representation)
+DT_RTOL = {}           # every integer type is evaluated in double precision: no allowance
+
+
+def int_grid(fracs_lists, n):
+    """The grid law: (L, dtype) such that every abscissa times L is an integer representable in dtype."""
+    L = 1
+    for q in fracs_lists:
+        L = L * q[1] // math.gcd(L, q[1])
+    vals = [q[0] * (L // q[1]) for q in fracs_lists]
+    dt = INT_DTYPES[n % len(INT_DTYPES)]
+    if dt == 'uint8' and (min(vals) < 0 or max(vals) > 255):
+        dt = 'int16'
+    return L, dt
+
+
+def run_fit_case(c, exp, notes, a=0, b=0, intx=None):
     """a, b: the case is replayed with invvar * 2^a and y * 2^b; by the scale laws of the specification the status
-    and the mask are the same and the optimum is TLC's times 2^b (powers of two: the rescaling itself is exact)."""
+    and the mask are the same and the optimum is TLC's times 2^b (powers of two: the rescaling itself is exact).
+    intx = n: the case is replayed on the integer grid of the grid law (knots and abscissae times L) with the abscissae
+    handed over as an integer-typed array; same status, mask, coefficients and fitted values."""
     k, t = c['k'], c['t']
-    s = make_sset(k, t, notes)
     ys, ws = 2.0 ** b, 2.0 ** a
-    x = np.array([float(frac(q)) for q in c['x']], dtype='d')
+    rtol = RTOL
+    if intx is not None:
+        L, dt = int_grid(c['x'], intx)
+        s = make_sset(k, [v * L for v in t], notes)
+        x = np.array([q[0] * (L // q[1]) for q in c['x']], dtype=dt)
+        rtol = DT_RTOL.get(dt, RTOL)
+    else:
+        s = make_sset(k, t, notes)
+        x = np.array([float(frac(q)) for q in c['x']], dtype='d')
     y = np.array(c['y'], dtype='d') * ys
     w = np.array(c['w'], dtype='d') * ws
     obs = call_fit(s, x, y, w)
     inter = set(range(k + 1, len(t) - k + 1))
     tag = ' [replayed with invvar*2^%d, y*2^%d]' % (a, b) if (a or b) else ''
+    if intx is not None:
+        tag = ' [replayed on the integer grid: knots and x times %d, x as %s]' % (L, dt)
     bad = judge_fit(obs, exp['allowed'], inter)
     if bad:
         return bad + tag
@@ -192,39 +221,51 @@ def run_fit_case(c, exp, notes, a=0, b=0):
         want = np.array([float(frac(q)) for q in exp['coeff']], dtype='d')
         got = np.asarray(s.coeff, dtype='d') / ys
         scale = 1 + np.abs(want).max()
-        if got.shape != want.shape or not np.all(np.abs(got - want) <= RTOL * scale):
+        if got.shape != want.shape or not np.all(np.abs(got - want) <= rtol * scale):
             return 'coefficients %s differ from the exact optimum %s%s' % (got.tolist(), [str(frac(q)) for q in exp['coeff']], tag)
         wy = np.array([float(frac(q)) for q in exp['yfit']], dtype='d')
-        if obs['yfit'].shape != wy.shape or not np.all(np.abs(obs['yfit'] / ys - wy) <= RTOL * scale):
+        if obs['yfit'].shape != wy.shape or not np.all(np.abs(obs['yfit'] / ys - wy) <= rtol * scale):
             return 'fitted values %s differ from the optimum\'s %s%s' % ((obs['yfit'] / ys).tolist(), wy.tolist(), tag)
     return None
 
 
-def run_poly_case(c, exp, notes, a=0, b=0):
+def run_poly_case(c, exp, notes, a=0, b=0, intx=None):
     k, t = c['k'], c['t']
-    s = make_sset(k, t, notes)
     ys, ws = 2.0 ** b, 2.0 ** a
-    x = np.array([float(frac(q)) for q in c['x']], dtype='d')
+    rtol = RTOL
+    if intx is not None:
+        L, dt = int_grid(list(c['x']) + list(c['probes']), intx)
+        s = make_sset(k, [v * L for v in t], notes)
+        x = np.array([q[0] * (L // q[1]) for q in c['x']], dtype=dt)
+        rtol = DT_RTOL.get(dt, RTOL)
+    else:
+        s = make_sset(k, t, notes)
+        x = np.array([float(frac(q)) for q in c['x']], dtype='d')
     y0 = np.array(exp['y'], dtype='d')
     w = np.array(c['w'], dtype='d') * ws
     obs = call_fit(s, x, y0 * ys, w)
     tag = ' [replayed with invvar*2^%d, y*2^%d]' % (a, b) if (a or b) else ''
+    if intx is not None:
+        tag = ' [replayed on the integer grid: knots, x and evaluation points times %d, as %s]' % (L, dt)
     bad = judge_fit(obs, exp['allowed'], set(range(k + 1, len(t) - k + 1)))
     if bad:
         return bad + tag
     if obs['st'] == 0 and exp['allowed'] == frozenset([0]):
         scale = 1 + np.abs(y0).max()
-        if not np.all(np.abs(obs['yfit'] / ys - y0) <= RTOL * scale):
+        if not np.all(np.abs(obs['yfit'] / ys - y0) <= rtol * scale):
             return 'polynomial of degree %d not reproduced at the data: max error %.3g%s' % (k - 1, np.abs(obs['yfit'] / ys - y0).max(), tag)
-        px = np.array([float(frac(q)) for q in c['probes']], dtype='d')
+        if intx is not None:
+            px = np.array([q[0] * (L // q[1]) for q in c['probes']], dtype=dt)
+        else:
+            px = np.array([float(frac(q)) for q in c['probes']], dtype='d')
         pv = np.array([float(frac(q)) for q in exp['pv']], dtype='d')
         try:
             val, vm = s.value(px)
         except Exception as ex:
-            return 'value() raised ' + short_exc(ex)
+            return 'value() raised ' + short_exc(ex) + tag
         if not np.all(vm):
             return 'value() flags probe points inside the breakpoint range as bad'
-        if not np.all(np.abs(val / ys - pv) <= RTOL * scale):
+        if not np.all(np.abs(val / ys - pv) <= rtol * scale):
             return 'polynomial of degree %d not reproduced at probe points: max error %.3g%s' % (k - 1, np.abs(val / ys - pv).max(), tag)
     return None
 
@@ -260,7 +301,7 @@ def knots_for(nord, S):
     return list(range(-(nord - 1), S + nord))
 
 
-def run_state_fit(nord, S, pc, mask, rng, notes, data=None, a=0, b=0):
+def run_state_fit(nord, S, pc, mask, rng, notes, data=None, a=0, b=0, grid=None):
     s = make_sset(nord, knots_for(nord, S), notes)
     mk = np.zeros(s.mask.shape, dtype=bool)
     for g in mask:
@@ -268,6 +309,13 @@ def run_state_fit(nord, S, pc, mask, rng, notes, data=None, a=0, b=0):
     s.mask = mk
     x, y, w = data if data is not None else cell_data(nord, S, pc, rng)
     y, w = y * 2.0 ** b, w * 2.0 ** a
+    if grid is not None:            # (L, dtype): knots and abscissae times L, abscissae integer-typed
+        xi = np.rint(x * grid[0])
+        if np.abs(xi - x * grid[0]).max() > 1e-6:
+            raise core.MachineryError('abscissae are not on the 1/%d grid' % grid[0])
+        x = xi.astype(grid[1])
+        s = make_sset(nord, [v * grid[0] for v in knots_for(nord, S)], notes)
+        s.mask = mk.copy()
     ill = illcond(s, x, w)
     return dict(call_fit(s, x, y, w), ill=ill), (x, y, w), s
 
@@ -350,10 +398,12 @@ def masked_measure(s, x, y, w, yfit, rng, poly=None):
     tm = np.asarray(s.breakpoints, dtype='d')[mk]
     lo, hi = tm[k - 1], tm[tm.size - k]
     inr = (x >= lo) & (x <= hi)
-    xin = x[inr]
+    xin = x[inr]            # in the caller's dtype (integer-typed abscissae stay integer-typed)
     parts = {}
+    if xin.size == 0:
+        return {'disc': 0, 'bdisc': 0, 'parts': parts, 'exc': '', 'condok': False}
     try:
-        A = design_matrix(tm, k, xin)
+        A = design_matrix(tm, k, np.asarray(xin, dtype='d'))
         n = tm.size - k
         cm = np.asarray(s.coeff, dtype='d')[mk[k:]]
         # basis consistency (whatever the status)
@@ -391,8 +441,8 @@ def masked_measure(s, x, y, w, yfit, rng, poly=None):
             parts['yfit'] = units(np.abs(np.asarray(yfit)[inr] - A.dot(sol)).max(), scale)
             disc = max(parts['coeff'], parts['yfit'])
             if poly is not None:
-                ps = max(np.abs(poly(xin)).max(), 1e-300) * max(1.0, kappa ** 2 * 1.1e-8)
-                parts['polyfit'] = units(np.abs(np.asarray(yfit)[inr] - poly(xin)).max(), ps)
+                ps = max(np.abs(poly(np.asarray(xin, dtype='d'))).max(), 1e-300) * max(1.0, kappa ** 2 * 1.1e-8)
+                parts['polyfit'] = units(np.abs(np.asarray(yfit)[inr] - poly(np.asarray(xin, dtype='d'))).max(), ps)
                 parts['polyval'] = units(np.abs(np.asarray(val)[vm] - poly(px)[vm]).max() if vm.any() else 0.0, ps)
                 disc = max(disc, parts['polyfit'], parts['polyval'])
         return {'disc': disc, 'bdisc': bdisc, 'parts': parts, 'exc': '', 'condok': condok}
@@ -564,6 +614,28 @@ def float_problem(rng, quick):
         # determined is TLC's verdict on the support counts)
         k = rng.choice([1, 2, 2, 3, 3, 4])
         S = max(S, 3)
+    intx = None
+    if rng.random() < 0.35:
+        # pixel-index style data: integer breakpoints, distinct integer abscissae, handed over as an integer-typed array
+        width = rng.choice([16, 24, 50])
+        lo = rng.choice([0, 0, rng.randint(-40, 3000)])
+        if lo == 0 and S * width <= 255 and rng.random() < 0.5:
+            intx = 'uint8'
+        else:
+            intx = rng.choice(['int64', 'int32', 'int16'])
+        bk = (lo + width * np.arange(S + 1)).astype('d')
+        xs = [int(bk[0]), int(bk[-1])]
+        for c0 in range(S):
+            cnt = rng.randint(k + 2, 14) if not sparse else rng.choice([1, 1, 2, 3] if k == 1 else [1, 1, 1, 2, 2, 3, 0])
+            xs.extend(rng.sample(range(int(bk[c0]) + 1, int(bk[c0 + 1])), cnt))
+        x = np.array(sorted(xs), dtype=intx)
+        xf = x.astype('d')
+        amp = 10 ** rng.uniform(-1, 3) * 2.0 ** rng.choice([0, 0, 0, -40, 20, 40])
+        wfac = 2.0 ** rng.choice([0, 0, 0, -70, -10, 40])
+        y = amp * (np.sin((xf - lo) / width * 1.7) + 0.3 * np.array([rng.gauss(0, 1) for _ in x]))
+        w = np.array([0.0 if rng.random() < (0.03 if sparse else 0.08) else rng.choice([0.5, 1.0, 1.0, 2.0, 4.0]) for _ in x],
+                     dtype='d') / (0.1 * amp) ** 2 * wfac
+        return k, bk, x, y, w, amp, sparse
     lo = rng.uniform(-100, 4000)
     width = 10 ** rng.uniform(-1, 2)
     bk = lo + width * np.arange(S + 1)
@@ -597,14 +669,18 @@ def law_records(rng, count, quick, stats):
         k, bk, x, y, w, amp, sparse = float_problem(rng, quick)
         rec = {'kind': 'fitlaw', 'law': law, 'nord': k, 'S': 0, 'pc': [0], 'st': [], 'finite': True, 'exc': '',
                'disc': 0, 'bdisc': 0, 'condok': True, 'mask': [], 'tol': LAWTOL, 'altered': [], 'zeroidx': [],
-               '_sparse': sparse}
+               '_sparse': sparse, '_xdtype': str(x.dtype)}
+        isint = x.dtype.kind in 'iu'
+        if isint:
+            rec['tol'] = int(DT_RTOL.get(str(x.dtype), 0) / 1e-9) or LAWTOL      # narrow integers promote to float32
+        xf = np.asarray(x, dtype='d')
         try:
             s = sset_on(k, bk, x)
         except Exception as ex:              # constructor trouble is C08's subject
             stats['constructor_failed'] = stats.get('constructor_failed', 0) + 1
             continue
         knots = np.asarray(s.breakpoints, dtype='d').copy()
-        ab = support_counts(knots, k, x, w)
+        ab = support_counts(knots, k, xf, w)
         if ab is None or (k == 1 and any(ab[1][q] for q in range(2, 2 * ab[0] - 1, 2))):
             stats['unabstractable'] = stats.get('unabstractable', 0) + 1
             continue
@@ -613,7 +689,7 @@ def law_records(rng, count, quick, stats):
         # measured conditioning of the weighted design: the unit of the discrepancies grows with cond^2 (the code solves
         # the normal equations); numerically singular systems are not compared
         try:
-            sv = np.linalg.svd(design_matrix(knots, k, x) * np.sqrt(w)[:, None], compute_uv=False)
+            sv = np.linalg.svd(design_matrix(knots, k, xf) * np.sqrt(w)[:, None], compute_uv=False)
             kappa = sv[0] / sv[-1] if (sv.size == knots.size - k and sv[-1] > 0) else np.inf
         except Exception:
             kappa = np.inf
@@ -632,7 +708,7 @@ def law_records(rng, count, quick, stats):
                 if o['exc']:
                     rec['exc'] = o['exc']
                 elif o['st'] == 0:
-                    ref, rank, A = dense_wls(knots, k, x, y, w)
+                    ref, rank, A = dense_wls(knots, k, xf, y, w)
                     if rank == ref.size:
                         scale = max(np.abs(ref).max() * cfac, amp * cfac * 1e-3)
                         rec['disc'] = max(units(np.abs(cf - ref).max(), scale), units(np.abs(o['yfit'] - A.dot(ref)).max(), scale))
@@ -664,15 +740,18 @@ def law_records(rng, count, quick, stats):
                     rec['disc'] = units(np.abs(c3 - (al * c1 + be * c2)).max(), scale)
             else:
                 pcs = [amp * rng.uniform(-1, 1) for _ in range(k)]
-                u = (x - bk[0]) / (bk[-1] - bk[0])
+                u = (xf - bk[0]) / (bk[-1] - bk[0])
                 yp = sum(cv * u ** e for e, cv in enumerate(pcs))
                 o, cf, s1 = fit1(yp, w)
                 rec['st'] = [o['st']]
                 rec['finite'] = o['finite']
                 rec['exc'] = o['exc'] or ''
                 if not rec['exc'] and o['st'] == 0:
-                    px = np.array(sorted(rng.uniform(bk[0], bk[-1]) for _ in range(25)))
-                    pu = (px - bk[0]) / (bk[-1] - bk[0])
+                    if isint:           # integer-typed evaluation points
+                        px = np.array(sorted(rng.randint(int(bk[0]), int(bk[-1])) for _ in range(25)), dtype=x.dtype)
+                    else:
+                        px = np.array(sorted(rng.uniform(bk[0], bk[-1]) for _ in range(25)))
+                    pu = (px.astype('d') - bk[0]) / (bk[-1] - bk[0])
                     val, vm = s1.value(px)
                     d = max(np.abs(o['yfit'] - yp).max(), np.abs(val - sum(cv * pu ** e for e, cv in enumerate(pcs))).max())
                     rec['disc'] = units(d, max(np.abs(yp).max() * cfac, amp * cfac * 1e-3)) if np.all(vm) else CAP
@@ -714,8 +793,11 @@ def loop_history(rng, notes, big):
                 pc[2 * g] = 1
     s = make_sset(nord, knots_for(nord, S), notes)
     x, y, w = cell_data(nord, S, pc, rng)
+    if style == 'allzero' and rng.random() < 0.5:
+        x, y, w = np.array([], dtype='d'), np.array([], dtype='d'), np.array([], dtype='d')     # no data at all
+        style = 'empty'
     pf = None
-    if rng.random() < 0.5:
+    if rng.random() < 0.5 and x.size:
         pf = poly_for(nord, rng, 0.0, float(S), 3.0)
         y = pf(x)
     # magnitudes: the histories must not depend on the units of y or of the inverse variances
@@ -747,8 +829,9 @@ def loop_history(rng, notes, big):
 
 class Recorder(object):
     """Wraps bspline.fit for the duration of one iterfit call."""
-    def __init__(self, m, rng=None, poly=None):
+    def __init__(self, m, rng=None, poly=None, always=False):
         self.m = m
+        self.always = always
         self.events = []
         self.orig = m.bspline.fit
         self.rng = rng
@@ -770,9 +853,9 @@ class Recorder(object):
             fin = bool(np.all(np.isfinite(np.asarray(sself.coeff, dtype='d'))) and np.all(np.isfinite(np.asarray(yfit, dtype='d'))))
             rec.events.append({'a': 'fit', 'mask': good(before), 'after': good(np.array(sself.mask, dtype=bool)),
                                'st': int(st) if isinstance(st, (int, np.integer)) else 99, 'finite': fin, 'illcond': ill})
-            if rec.rng is not None and not before.all() and x2 is None:
+            if rec.rng is not None and (rec.always or not before.all()) and x2 is None:
                 st0 = isinstance(st, (int, np.integer)) and int(st) == 0
-                xd, yd, wd = (np.asarray(v, dtype='d') for v in (xdata, ydata, invvar))
+                xd, yd, wd = np.asarray(xdata), np.asarray(ydata, dtype='d'), np.asarray(invvar, dtype='d')
                 rec.meas.append((good(before), int(st) if isinstance(st, (int, np.integer)) else 99, fin, ill,
                                  masked_measure(sself, xd, yd, wd, np.asarray(yfit, dtype='d') if st0 else None, rec.rng,
                                                 poly=rec.poly if st0 else None)))
@@ -819,6 +902,13 @@ def iterfit_history(rng, stats):
         a = rng.uniform(0.1, 0.6)
         w = np.where((u > a) & (u < a + rng.uniform(0.15, 0.35)), 0.0, w)
     x = x0 + span * u
+    xdtype = 'd'
+    if rng.random() < 0.35:
+        # pixel indices: integer abscissae in an integer-typed array (ties possible)
+        span = float(40 * nseg)
+        x0 = float(rng.choice([0, rng.randint(-50, 5000)]))
+        xdtype = rng.choice(['int64', 'int32', 'int16'])
+        x = (x0 + np.rint(span * u)).astype(xdtype)
     y = np.sin(4 * u) * 3 + np.array([rng.gauss(0, 0.1) for _ in u])
     pf = None
     if rng.random() < 0.5:
@@ -834,13 +924,13 @@ def iterfit_history(rng, stats):
         if gx.size < 2 or gx.min() == gx.max():
             kw['nbkpts'] = nseg + 1
         else:
-            kw['bkpt'] = np.linspace(gx.min(), gx.max(), nseg + 1)
+            kw['bkpt'] = np.linspace(float(gx.min()), float(gx.max()), nseg + 1)
     maxiter = rng.choice([0, 3, 10, 20])
     perm = np.arange(x.size)
     if rng.random() < 0.5:
         rng.shuffle(perm)
     events, sset, exc = [], None, None
-    with Recorder(m, rng, pf) as rec:
+    with Recorder(m, rng, pf, always=(xdtype != 'd')) as rec:
         try:
             sset, outmask = m.iterfit(x[perm], y[perm], invvar=w[perm], upper=1e30, lower=1e30, maxiter=maxiter, **kw)
         except ValueError as ex:
@@ -857,7 +947,7 @@ def iterfit_history(rng, stats):
         events = rec.events
     src = 'iterfit/%s/%s' % (style, how)
     hist = {'nord': nord, 'maxfits': maxiter + 1, 'events': events, 'src': src,
-            'data': {'x': x[perm].tolist(), 'y': y[perm].tolist(), 'w': w[perm].tolist(), 'maxiter': maxiter,
+            'data': {'x': x[perm].tolist(), 'xdtype': xdtype, 'y': y[perm].tolist(), 'w': w[perm].tolist(), 'maxiter': maxiter,
                      'kw': {kk: (v.tolist() if isinstance(v, np.ndarray) else v) for kk, v in kw.items()}}}
     if sset is None:
         if events and events[0]['a'] == 'refuse':
@@ -871,13 +961,18 @@ def iterfit_history(rng, stats):
     fin = bool(np.all(np.isfinite(np.asarray(sset.coeff, dtype='d'))))
     events.append({'a': 'return', 'mask': good(np.array(sset.mask, dtype=bool)), 'finite': fin})
     knots = np.asarray(sset.breakpoints, dtype='d')
-    ab = support_counts(knots, sset.nord, x, w)
+    ab = support_counts(knots, sset.nord, np.asarray(x, dtype='d'), w)
     if np.any(np.diff(knots) <= 0) or ab is None or (nord == 1 and any(ab[1][q] for q in range(2, 2 * ab[0] - 1, 2))):
         stats['unabstractable'] = stats.get('unabstractable', 0) + 1
         return dict(hist, S=0, pc=[], weak=True)        # judged without a support problem (records mode, kind "run")
     hist['S'], hist['pc'] = ab
-    hist['masked'] = [masked_record('masked-poly' if pf else 'masked', nord, ab[0], ab[1], gk, st, fin2, meas, src, hist['data'],
+    nk = knots.size
+    lawname = lambda gk: ('intx' if len(gk) == nk else 'masked-poly' if pf else 'masked')
+    hist['masked'] = [masked_record(lawname(gk), nord, ab[0], ab[1], gk, st, fin2, meas, src, hist['data'],
                                     ill=ill2) for gk, st, fin2, ill2, meas in rec.meas]
+    if xdtype in DT_RTOL:
+        for mr in hist['masked']:
+            mr['tol'] = int(DT_RTOL[xdtype] / 1e-9)
     return hist
 
 
@@ -957,6 +1052,11 @@ def run_cases(ctx, notes):
                 ctx.evaluated(1, 'fit-rescaled')
                 if bad:
                     part = 'fit-rescaled'
+            if not bad:                      # the grid law: integer grid, integer-typed abscissae
+                bad = run_fit_case(c, exp, notes, intx=nscaled)
+                ctx.evaluated(1, 'fit-intx')
+                if bad:
+                    part = 'fit-intx'
             if exp['wellposed'] and len(c['x']) > len(c['t']) - c['k']:
                 ctx.nontriv(('fit', c['k'], c['t'], c['x'], c['y'], c['w']))
         elif kind == 'poly':
@@ -969,6 +1069,11 @@ def run_cases(ctx, notes):
                 ctx.evaluated(1, 'poly-rescaled')
                 if bad:
                     part = 'poly-rescaled'
+            if not bad:
+                bad = run_poly_case(c, exp, notes, intx=nscaled)
+                ctx.evaluated(1, 'poly-intx')
+                if bad:
+                    part = 'poly-intx'
             ctx.nontriv(('poly', c['k'], c['t'], c['pc'], c['w']))
         elif kind == 'fewbk':
             s = make_sset(c['k'], knots_for(c['k'], c['S']), notes)
@@ -1006,6 +1111,8 @@ def classify(bad):
         return 'D-C09-1'
     if 'could not broadcast input array' in bad:
         return 'D-C09-2'
+    if 'index -1 is out of bounds for axis 0 with size 0' in bad:
+        return 'D-C09-3'          # fit / value on empty data arrays raise IndexError in action()
     return None
 
 
@@ -1041,6 +1148,14 @@ def run_machine(ctx, notes):
                 bad += ' [replayed with invvar*2^%d, y*2^%d]' % (a2, b2)
                 data = (data[0], data[1] * 2.0 ** b2, data[2] * 2.0 ** a2)
                 obs = obs2
+        if not bad and len(seen) % 3 == 1:
+            # grid law: the same state on the integer grid (times 300), abscissae as an integer array
+            dt = ['int64', 'int32', 'int16'][(len(seen) // 3) % 3]
+            obs3, _d3, _s3 = run_state_fit(P['nord'], P['S'], P['pc'], st['bkmask'], rng, notes, data=data, grid=(300, dt))
+            ctx.evaluated(1, 'machine-step-intx')
+            bad = judge_fit(obs3, exp['allowed'], exp['droppable'])     # (300 is no power of two: where the class admits
+            if bad:                                                       # several answers rounding may pick another one)
+                bad += ' [replayed on the integer grid: knots and x times 300, x as %s]' % dt
         if len(st['bkmask']) < P['S'] + 2 * P['nord'] - 1 and not obs['exc']:
             # breakpoints had been dropped before this fit: basis consistency always, optimality when it answered 0
             nmasked += 1
@@ -1133,6 +1248,35 @@ def run_histories(ctx, notes):
             k + 1, ev, [(e.get('st'), e.get('a')) for e in h['events'][:k]], h['nord'], h['S'], h['pc'], h['src']),
             'kind': 'history', 'history': jsonable({kk: h[kk] for kk in ('nord', 'S', 'pc', 'maxfits', 'events', 'src')}),
             'data': h['data']}, finding=classify((ev or {}).get('exc') or ''))
+    # binding self-test of the runs mode: accepted histories with ONE event falsified must all be refused
+    fals = []
+    for idx, h in enumerate(hists):
+        if idx in refused:
+            continue
+        fe = [j for j, e in enumerate(h['events']) if e['a'] == 'fit']
+        if not fe:
+            continue
+        h2 = {kk: copy.deepcopy(h[kk]) for kk in ('nord', 'S', 'pc', 'maxfits', 'events')}
+        e = h2['events'][fe[len(fals) % len(fe)]]
+        m = len(fals) % 3
+        if m == 0:
+            e['finite'] = False                                     # non-finite coefficients
+        elif m == 1:
+            e['mask'] = e['mask'][:-1]                              # a flipped bit of the mask the fit started from
+            e['after'] = [g for g in e['after'] if g in e['mask']]
+        else:
+            e['st'] = {0: -1, -1: 0, -2: -1}.get(e['st'], 0)        # a wrong status (mask change left as observed)
+        fals.append(h2)
+        if len(fals) >= (150 if ctx.quick else 600):
+            break
+    if not fals:
+        raise core.MachineryError('binding self-test of the runs mode: nothing to falsify')
+    refused_f = validate_histories(ctx, fals, 'Trace_BSplineFit_runs self-test')
+    missed = [k for k in range(len(fals)) if k not in refused_f]
+    ctx.cov['parts']['selftest_histories'] = {'falsified_histories': len(fals), 'refused': len(fals) - len(missed)}
+    if missed:
+        raise core.MachineryError('binding self-test of the runs mode: %d of %d falsified histories were accepted, e.g. %r'
+                                  % (len(missed), len(fals), fals[missed[0]]))
     notes['_masked_records'] = notes.get('_masked_records', []) + [mr for h in hists for mr in h.get('masked', [])]
     stats['masked_fit_records'] = sum(len(h.get('masked', [])) for h in hists)
     stats['histories'] = srcs
@@ -1151,8 +1295,56 @@ def run_records(ctx, notes):
     masked = notes.pop('_masked_records', [])
     recs += masked
     bad, compared = judge_records(ctx, recs)
+    # binding self-test: accepted records with ONE observed field falsified must all be rejected by the same judge
+    fals = []
+    cand = [k for k in range(len(recs)) if k not in bad]
+    step = max(1, len(cand) // (400 if ctx.quick else 1200))
+    for k in cand[::step]:
+        rec = recs[k]
+        r2 = copy.deepcopy({kk: v for kk, v in rec.items() if not kk.startswith('_')})
+        m = len(fals) % 3
+        if rec['kind'] == 'chol':
+            if rec['exc']:
+                continue
+            if rec['okobs'] and rec['exact']:
+                if m == 0:
+                    r2['L'][0][0] += 1              # a wrong factor entry
+                elif m == 1:
+                    r2['x'][0] += 1                 # a wrong solution entry
+                else:
+                    r2['okobs'] = False             # a positive definite matrix reported as refused
+            elif rec['okobs'] and not rec['intmat']:
+                r2['resL' if m else 'resX'] = 10 ** 7
+            elif not rec['okobs']:
+                r2['same'] = False                  # problem signalled but the input not handed back
+            else:
+                continue
+        elif rec['kind'] == 'fitlaw':
+            if k not in compared:
+                continue
+            if m == 0:
+                r2['disc'] = r2['tol'] * 50 + 7     # coefficients beyond tolerance
+            elif m == 1:
+                r2['finite'] = False
+            else:
+                r2['bdisc'] = r2['tol'] * 50 + 7    # basis / value() inconsistent
+        elif rec['kind'] == 'run':
+            ev = [e for e in r2['events'] if e['a'] == 'fit']
+            if not ev:
+                continue
+            if m == 0:
+                ev[0]['finite'] = False
+            elif m == 1:
+                ev[0]['st'] = 7                     # undocumented status
+            else:
+                ev[0]['after'] = ev[0]['mask'] + [max(ev[0]['mask']) + 1]      # a mask that grew
+        fals.append(r2)
+    core.binding_selftest(ctx, 'Trace_BSplineFit', fals, 'records')
     # the optimality laws on objects with dropped breakpoints must not be vacuous
     mcomp = {'machine': 0, 'loop': 0, 'iterfit': 0}
+    stats['intx_law_records'] = sum(1 for r0 in recs if r0.get('_xdtype', 'float64')[0] in 'iu')
+    stats['intx_law_records_optimum_compared'] = sum(1 for k, r0 in enumerate(recs) if r0.get('_xdtype', 'float64')[0] in 'iu' and k in compared)
+    stats['intx_iterfit_fits_optimum_compared'] = sum(1 for k, r0 in enumerate(recs) if r0.get('law') == 'intx' and k in compared)
     for k, rec in enumerate(recs):
         if rec.get('law') in ('masked', 'masked-poly') and (k in compared):
             mcomp[rec['src'].split('/')[0]] += 1
@@ -1166,6 +1358,10 @@ def run_records(ctx, notes):
     need = {'machine': 150, 'loop': 10, 'iterfit': 10} if ctx.quick else {'machine': 1500, 'loop': 300, 'iterfit': 300}
     mcomp = dict(mcomp, sparse=stats['sparse_law_records_optimum_compared'])
     need['sparse'] = 15 if ctx.quick else 300
+    mcomp['intx-records'] = stats['intx_law_records_optimum_compared']
+    mcomp['intx-iterfit'] = stats['intx_iterfit_fits_optimum_compared']
+    need['intx-records'] = 25 if ctx.quick else 400
+    need['intx-iterfit'] = 10 if ctx.quick else 200
     short = {kk: (mcomp[kk], need[kk]) for kk in need if mcomp[kk] < need[kk]}
     if short and not bad and not ctx.violations:
         raise core.MachineryError('too few status-0 fits on objects with dropped breakpoints had their optimum compared: %r' % short)
@@ -1212,6 +1408,12 @@ def run(ctx):
         'a warning for fewer good points than the order are accepted as its failure reports',
         'order-1 problems keep data off interior breakpoints (cell attribution of such a point is left open)',
         'requiren (iterfit keyword) is not exercised',
+        'representations of the data: abscissae and evaluation points are also handed over as integer-typed arrays (int64 / '
+        'int32 / int16 / uint8) wherever the values are integral - every exact case is replayed on the integer grid of the '
+        'grid law (knots and x times L), recorded float fits and iterfit runs include pixel-index data; expected values are '
+        'the same, no per-dtype allowance.  Length-1 data and empty data arrays are inside the domain (too few data: status, '
+        'not an exception).  0-d arrays are outside: the statement speaks of sorted data sequences and bspline.fit documents '
+        'its arguments as arrays of data; a 0-d array cannot be indexed or sorted',
     ]
     notes = {}
     run_cases(ctx, notes)
@@ -1263,7 +1465,7 @@ def replay(ctx, case):
             kw = {kk: (np.array(v) if isinstance(v, list) else v) for kk, v in d['kw'].items()}
             with Recorder(m) as rec:
                 try:
-                    m.iterfit(np.array(d['x']), np.array(d['y']), invvar=np.array(d['w']), upper=1e30, lower=1e30,
+                    m.iterfit(np.array(d['x'], dtype=d.get('xdtype', 'd')), np.array(d['y']), invvar=np.array(d['w']), upper=1e30, lower=1e30,
                               maxiter=d['maxiter'], **kw)
                 except Exception as ex:
                     print('iterfit raised', short_exc(ex))
